@@ -330,6 +330,15 @@ func runC20(p *Prog, r *Report) {
 								argsReset = true
 							}
 						}
+						if isCallTo(c, resetBody) && resetBody != nil {
+							allCalls(resetBody, func(b2 *ssa.BasicBlock, c2 ssa.CallInstruction) {
+								if f2 := c2.Common().StaticCallee(); f2 != nil && f2.Name() == "Reset" && recvTypeName(f2) == "Args" {
+									if fa, isFA := c2.Common().Args[0].(*ssa.FieldAddr); isFA && fieldName(fa.X.Type(), fa.Field) == "postArgs" {
+										argsReset = true
+									}
+								}
+							})
+						}
 						if !isTeardown {
 							continue
 						}
@@ -349,7 +358,7 @@ func runC20(p *Prog, r *Report) {
 				}
 			}
 			sort.Strings(cond)
-			r.Check("R4", name+": every step of the 303 teardown (body, post arguments, framing headers) runs on every 303", len(cond) == 0 && argsReset && head != nil && steps >= 5, p.Pos(fn.Pos()),
+			r.Check("R4", name+": every step of the 303 teardown (body, post arguments, framing headers) runs on every 303", len(cond) == 0 && argsReset && head != nil && steps >= 4, p.Pos(fn.Pos()),
 				fmt.Sprintf("steps found: %d; post arguments reset: %v; conditional steps: %s - Request.Write also builds a body from post arguments and multipart forms when the body buffer is empty, so a guard that looks at the buffer alone lets such a body through to the follow-up GET", steps, argsReset, strings.Join(cond, "; ")))
 		}
 		r.Check("R4", name+": a 303 drops the body and its framing headers and rewrites the method to GET", hasReset && hasGet && dels["content-length"] && dels["content-type"] && dels["transfer-encoding"],
